@@ -11,7 +11,7 @@ from . import facts as F
 from . import mir as M
 
 VERIF = F.VERIF
-EVID = os.path.join(VERIF, "evidence")
+EVID = os.environ.get("ESSB_EVIDENCE_DIR") or os.path.join(VERIF, "evidence")
 
 
 class AnchorMissing(Exception):
